@@ -8,24 +8,25 @@ WT=/tmp/seedeval-$ID
 OUT=/verif/seeded/$ID
 mkdir -p "$OUT"
 if [ ! -d $WT ]; then git -C /repo worktree add -q --detach $WT HEAD; fi
-git -C $WT checkout -q --detach "$(git -C /repo rev-parse HEAD)" && git -C $WT checkout -q -- . && git -C $WT clean -fdq
+git -C $WT checkout -q -- . ; git -C $WT clean -fdq; git -C $WT checkout -q --detach "$(git -C /repo rev-parse HEAD)"
 cp "$SRC/patch.diff" "$OUT/patch.diff"; cp "$SRC/demo.py" "$OUT/demo.py"; [ -f "$SRC/notes.md" ] && cp "$SRC/notes.md" "$OUT/notes.md"
 timeout 120 /venv/bin/python "$OUT/demo.py" $WT >/tmp/seedeval.demo0 2>&1; D0=$?
 git -C $WT apply "$OUT/patch.diff" 2>/dev/null || (cd $WT && patch -p1 -F3 -s < "$OUT/patch.diff") || { echo "patch does not apply"; exit 2; }
 SUITE=$(cd $WT && env -u PDPY11_VERIF /venv/bin/python -m pytest -q -p no:cacheprovider --continue-on-collection-errors 2>&1 | tail -1)
 timeout 120 /venv/bin/python "$OUT/demo.py" $WT >/tmp/seedeval.demo1 2>&1; D1=$?
 echo "suite: $SUITE | demo clean=$D0 patched=$D1"
-RES=""
+: > /tmp/seedeval-$ID.runs
 for c in "$@"; do
   OUTC=$(cd /verif && PDPY11_REPO=$WT timeout 3000 ./check $c --tier quick 2>&1); RC=$?
   N=$(echo "$OUTC" | grep -c '^VIOLATION')
-  FIRST=$(echo "$OUTC" | grep -A1 '^VIOLATION' | sed -n '2p' | cut -c1-300)
-  echo "check $c: exit=$RC violations_printed=$N :: $FIRST"
-  RES="$RES{\"check\":\"$c\",\"exit\":$RC,\"violation_lines\":$N,\"first\":$(python3 -c 'import json,sys; print(json.dumps(sys.argv[1]))' "$FIRST")},"
+  echo "$OUTC" | grep -A1 '^VIOLATION' | sed -n '2p' | cut -c1-300 > /tmp/seedeval-$ID.first
+  echo "check $c: exit=$RC violations_printed=$N :: $(cat /tmp/seedeval-$ID.first)"
+  python3 -c 'import json,sys; print(json.dumps({"check":sys.argv[1],"exit":int(sys.argv[2]),"violation_lines":int(sys.argv[3]),"first":open(sys.argv[4]).read().strip()}))' "$c" "$RC" "$N" /tmp/seedeval-$ID.first >> /tmp/seedeval-$ID.runs
 done
-python3 - "$OUT" "$ID" "$SUITE" "$D0" "$D1" "[${RES%,}]" <<'PY'
+python3 - "$OUT" "$ID" "$SUITE" "$D0" "$D1" "/tmp/seedeval-$ID.runs" <<'PY'
 import json, sys
-out, sid, suite, d0, d1, res = sys.argv[1:7]
+out, sid, suite, d0, d1, resf = sys.argv[1:7]
+res = json.dumps([json.loads(l) for l in open(resf) if l.strip()])
 meta_p = out + "/meta.json"
 try:
     meta = json.load(open(meta_p))
@@ -38,3 +39,4 @@ meta["runs"] = [r for r in meta["runs"] if r["check"] not in {x["check"] for x i
 json.dump(meta, open(meta_p, "w"), indent=1)
 PY
 git -C $WT checkout -q -- . && git -C $WT clean -fdq
+rm -f /tmp/seedeval-$ID.runs /tmp/seedeval-$ID.first
